@@ -95,6 +95,15 @@ def run(repo: Repo, chk: Check) -> None:
     chk.ob('R-PATH', autofill.qualname, ok, 'mempool offset read once, after one simulation', autofill.loc,
            {'events': [p.value for p in res][:2]}, what='autofill reads the mempool offset more than once or not at all')
 
+    # the mempool cannot be read (pending_operations answers with an error): no group may come back - one that did would carry counters that
+    # ignore the account's pending operations
+    res = Interp(repo, GroupHooks(repo, mempool_fails=True), max_depth=6).run_paths(auto)
+    back = [list(p.value) for p in res if p.outcome == 'return']
+    chk.ob('R-PATH', autofill.qualname, bool(res) and not back, 'the mempool offset cannot be read: autofill fails instead of assuming an offset', autofill.loc,
+           {'paths': [p.outcome for p in res], 'counters_handed_back': back[:2]},
+           what=f'when reading the mempool fails autofill still hands back a group, with counters {back[:1]}: the account\'s pending operations are not counted '
+                'and the group reuses a counter that is already taken')
+
     # ---- 1 inject: reset precedes POST (CFG) -----------------------------------------------------------------------
     chk.set_clause('C25.1')
     g = CFG(inject.node)
@@ -158,6 +167,8 @@ class _MempoolHooks(GroupHooks):
                 return 'tz1me'
             if name == 'pending_operations':
                 import copy
+                if self.mempool is None:  # the node answers with an error
+                    self._node_error(callee, 'pending_operations failed')
                 return copy.deepcopy(self.mempool)
             if name in ('debug', 'info', 'warning'):
                 return None
@@ -184,6 +195,11 @@ def _offset_clause(repo: Repo, chk: Check) -> None:
         ('sections missing from the reply', {}, 0),
         ('contents without a source (consensus operations)', {'applied': [{'contents': [{'kind': 'endorsement'}]}]}, 0),
     ]
+    res = Interp(repo, _MempoolHooks(repo, None), max_depth=2).run_method(fi, lambda: (Obj(CTX, {}), [], {}))
+    back = [vrepr(p.value) for p in res if p.outcome == 'return']
+    chk.ob('R-PATH', fi.qualname, bool(res) and not back, 'the mempool cannot be read: the failure is passed on, no offset is made up', fi.loc,
+           {'paths': [p.outcome for p in res], 'offsets_returned': back},
+           what=f'get_counter_offset answers {back[:1]} when the node cannot be asked: pending operations of the account are not counted and a counter is reused')
     for what, mempool, want in cases:
         res = Interp(repo, _MempoolHooks(repo, mempool), max_depth=2).run_method(fi, lambda: (Obj(CTX, {}), [], {}))
         got = [p.value if p.outcome == 'return' else f'{p.outcome}:{vrepr(p.value)[:60]}' for p in res]
